@@ -1,5 +1,5 @@
 """C06 — truthful, stable final state; the experiment exits."""
-FUNCS = ["Job.dependencychanged", "Dependency.check", "Scheduler.aio_registerJob", "JobDependency.status",
+FUNCS = ["JobLock.acquire", "JobDependency.lock", "Job.dependencychanged", "Dependency.check", "Scheduler.aio_registerJob", "JobDependency.status",
          "Scheduler.aio_submit", "experiment.wait.awaitcompletion", "Scheduler.aio_start"]
 LEVEL = "proof"
 LEVEL_TEXT = 'Deductive: every write site of Job.state replaces a final state only by a final state (exception: adoption DONE->RUNNING); dependencychanged never changes a finished state; aio_start result is DONE iff exit code 0 (or no code and the success marker / a failed file containing 0); aio_submit returns the final state, decrements the counter exactly once and before notify_all; aio_registerJob counts a re-submitted job; awaitcompletion returns only when exitMode or counter and queue are 0. Known finding (bounded native schedule): lost READY after an aborted start.'
